@@ -206,6 +206,43 @@ def match_known(f, prop, known):
 NOT_DECIDED = {}
 LEVEL_NOTES = {}
 
+ALIASES = {"from_tagged_cbor_data": "from_untagged_cbor", "from_tagged_cbor": "from_untagged_cbor", "tagged_cbor": "untagged_cbor",
+           "to_cbor_data": "untagged_cbor", "to_envelope": "into_envelope", "into": "from", "try_into": "try_from"}
+
+def call_reach(em, lines, roots):
+    """Functions under contract reachable from `roots` through calls, by name (over-approximation): a call `x.name(` or
+    `Type::name(` or `name(` in the generated text of a function is an edge to every function under contract of that name."""
+    import re as _re
+    by_name = {}
+    for f in em.functions:
+        if f.get("header") in ("type",):
+            continue
+        for nm in {f.get("name"), f.get("rename_to")}:
+            if nm:
+                by_name.setdefault(nm, set()).add(f["key"])
+    edges = {}
+    for f in em.functions:
+        l0, l1 = f.get("gen_lines", [0, 0])
+        if not l0:
+            continue
+        body = "\n".join(lines[l0 - 1:l1])
+        callees = set()
+        for m in _re.finditer(r"\b([A-Za-z_][A-Za-z0-9_]*)\s*(?:::<[^>]*>)?\s*\(", body):
+            nm = m.group(1)
+            # provided trait methods / conversions dispatch to the implementor's required method
+            for nm2 in (nm, ALIASES.get(nm)):
+                if nm2 and nm2 in by_name and nm2 != f.get("name"):
+                    callees |= by_name[nm2]
+        edges[f["key"]] = callees - {f["key"]}
+    seen = set(roots)
+    todo = list(roots)
+    while todo:
+        k = todo.pop()
+        for c in edges.get(k, ()):
+            if c not in seen:
+                seen.add(c); todo.append(c)
+    return seen
+
 def decide(prop, r, tier, seed, meta):
     """Returns (exit_code, output_lines, evidence_dict)."""
     em = r.em
@@ -222,6 +259,23 @@ def decide(prop, r, tier, seed, meta):
         panic = []
     calls = [c for c in r.call_sites if prop in c["tags"]]
     failures = [f for f in r.an.failures if prop in P.failure_tags(f) and not (f.get("cascade_of_panic") and prop != "C16")]
+    # Modular verification: the obligations of this property were discharged ASSUMING the full contracts of the functions
+    # they call.  If a function reachable (by call) from this property's functions fails any obligation that is not
+    # tagged with this property, nothing tagged here failed, but the proof no longer stands on established contracts:
+    # undecided (exit 2), never a silent exit 0.  Recorded findings (and their cascades) are excluded.
+    known0 = load_known()
+    dep_fail = []
+    if prop != "C16":
+        mine_fns = {f["key"] for f in em.functions if prop in f["tags"]} | {ob["fn"] for ob in obs}
+        own_fns = {f["key"] for f in em.functions if prop in f["tags"]}      # functions of this property itself
+        reach = call_reach(em, r.lines, mine_fns)
+        for f in r.an.failures:
+            if prop in P.failure_tags(f) or f.get("cascade_of_panic"):
+                continue
+            if f["fn"] in reach and f["fn"] not in own_fns:
+                if any(match_known(f, t, known0) for t in P.failure_tags(f)):
+                    continue
+                dep_fail.append(f)
     undec = [u for u in r.an.undecided if u["fn"] is None or any(u["fn"] == f["key"] and prop in f["tags"] for f in em.functions)]
     # a failure inside a function some of whose annotations could not be placed (its source changed shape) cannot be told
     # from a lost proof hint: such failures are reported as UNDECIDED (exit 2), never as a violation
@@ -268,6 +322,10 @@ def decide(prop, r, tier, seed, meta):
         fl = sorted({(f["ob"] or ("%s@%s" % (f["kind"], f["fn"]))) for f in undec_havoc})
         out.append("UNDECIDED property=%s: %s not discharged, but the enclosing function calls external functions that have no model here (%s); their results are unconstrained, so this is an unsupported construct, not a violation" % (
             prop, ",".join(fl)[:400], ", ".join(d.split("]")[0].split("[")[-1] for d in r.havoc)[:300]))
+        code = 2
+    if dep_fail:
+        fl = sorted({"%s (%s)" % (f["fn"].split(":")[-1], (f["ob"] or f["kind"]).split("#")[-1]) for f in dep_fail})
+        out.append("UNDECIDED property=%s: its obligations are discharged, but they rest on the contracts of functions they call, and these are no longer established: %s" % (prop, "; ".join(fl)[:500]))
         code = 2
     if vac_bad:
         out.append("UNDECIDED property=%s: vacuity probe did not fail (contradictory requires/axioms?) in %s" % (prop, vac_bad[:5]))
